@@ -243,8 +243,18 @@ def run_c19(ctx, P):
     lines_pool = []
     for name in P["stream_names"]:
         b, _ = streams.STREAMS[name]
-        for c in b(ctx, random.Random("%d/%s/c19" % (ctx.seed, name)))[:3]:
-            lines_pool.append(c.lines[:120])
+        cs = b(ctx, random.Random("%d/%s/c19" % (ctx.seed, name)))
+        for c in r.sample(cs, min(6, len(cs))):
+            k0 = r.randint(0, max(0, len(c.lines) - 150))
+            lines_pool.append(([c.lines[0]] if c.lines and c.lines[0].startswith("parse 0") else []) + c.lines[k0:k0 + 150])
+    # commands that go through every piece of code with static storage or scratch buffers:
+    # IDNA, UTF-8 repair of ill-formed escapes, sorting, file paths, number printing
+    shared = []
+    for i in range(40):
+        shared += ["pctdec %s" % tok("%FF%FEx%C3" + "%80" * (i % 5)), "urlenc_parse 1 %s" % tok("a=%FF%FF&b=%C3&c=%ED%A0%80" + "z" * i),
+                   "usp_new 0 %s" % tok("z=%FF&y=2&x=%C3(&\uffff=1&\U00010000=2"), "usp_sort 0", "host %s" % tok("b\u00fccher%d.example" % i),
+                   "parse 1 %s -" % tok("file:///a%FFb/%C3"), "tofile 1 posix", "ipv6ser 0 0 0 %d 0 0 0 1" % i, "ipv4ser %d" % (i * 16843009),
+                   "parse 2 %s -" % tok("http://[1:2::%x]:%d/" % (i, 1000 + i)), "set 2 port %s" % tok(str(2000 + i)), "fromfile 3 windows %s" % tok("C:\\dir %d\\\u00fc" % i)]
     ctx.tier = ctx_tier
     rounds = scale(ctx, 12, 120)
     env = dict(os.environ, TSAN_OPTIONS="halt_on_error=1:exitcode=96:second_deadlock_stack=1")
@@ -253,7 +263,7 @@ def run_c19(ctx, P):
         nt = r.choice([2, 4, 8, 16])
         warm = r.random() < 0.3
         # an IDNA-requiring parse first, so that the first conversion is contended
-        lines = ["reset", "parse 0 %s -" % tok("http://bücher%d.example/ü" % k), "host %s" % tok("例え.jp")] + r.choice(lines_pool)
+        lines = ["reset", "parse 0 %s -" % tok("http://bücher%d.example/ü" % k), "host %s" % tok("例え.jp")] + (shared if k % 2 == 0 else shared[::-1]) + ["reset"] + r.choice(lines_pool)
         fn = os.path.join(ctx.bd, "mt_%d.txt" % k)
         with open(fn, "w") as f:
             f.write("\n".join(lines) + "\n")
